@@ -3,7 +3,8 @@
 //!
 //! A case is `p <ints>`: a program as a list of ops in the encoding of `lean/Driver/C01.lean`
 //! (`0` `{`, `1` `}`, `2 pre kind idx val` assignment, `3 pre tk tn dk a b` definition,
-//! `4 pre f` font selector, `5 c x y` read; `pre` = number of `\global`s, + 10 on a \count/\dimen/\skip
+//! `4 pre f` font selector, `5 c x y` read; `pre % 10` = number of `\global`s (0..3); on a `\def`/`\gdef` `pre / 10` is the
+//! whole prefix run in base 4 (1 `\global`, 2 `\long`, 3 `\outer`: any order, any repetition, at most 5); + 10 on a \count/\dimen/\skip
 //! assignment = write it as `\multiply v by 0 \advance v by val`, + 10 on a font selector = select through a fresh
 //! `\let`-alias). The program is rendered to TeX source (one line) and
 //! run by the real VM: `VM::<StdLibState>` with `StdLibState`'s own built-ins plus
@@ -160,10 +161,12 @@ fn op_ok(op: &Op) -> bool {
     match *op {
         Op::Begin | Op::End | Op::ReadFont => true,
         Op::Assign { pre, kind, idx, val } => {
-            (0..=2).contains(&(pre % 10)) && (pre / 10 == 0 || (pre / 10 == 1 && (0..=2).contains(&kind))) && var_ok(kind, idx) && val_ok(kind, idx, val)
+            (0..=3).contains(&(pre % 10)) && (pre / 10 == 0 || (pre / 10 == 1 && (0..=2).contains(&kind))) && var_ok(kind, idx) && val_ok(kind, idx, val)
         }
         Op::Define { pre, tk, tn, dk, a, b } => {
-            (0..=2).contains(&pre)
+            // `\long` / `\outer` are legal in front of macro definitions only
+            prefix_run(pre).is_some()
+                && (pre / 10 == 0 || dk == 0 || dk == 1)
                 && target_ok(tk, tn)
                 && match dk {
                     0 | 1 => (0..1000000).contains(&a),
@@ -178,7 +181,7 @@ fn op_ok(op: &Op) -> bool {
                     _ => false,
                 }
         }
-        Op::Font { pre, f } => (0..=2).contains(&(pre % 10)) && pre / 10 <= 1 && (0..4).contains(&f),
+        Op::Font { pre, f } => (0..=3).contains(&(pre % 10)) && pre / 10 <= 1 && (0..4).contains(&f),
         Op::ReadVar { kind, idx } => var_ok(kind, idx),
         Op::ReadCmd { tk, tn } => target_ok(tk, tn),
     }
@@ -208,12 +211,53 @@ fn target_tex(tk: i64, tn: i64) -> String {
     }
 }
 
-fn pre_tex(pre: i64) -> &'static str {
-    match pre {
-        0 => "",
-        1 => "\\global ",
-        _ => "\\global \\global ",
+fn pre_tex(pre: i64) -> String {
+    "\\global ".repeat(pre.clamp(0, 9) as usize)
+}
+
+/// The prefix run of a `\def`/`\gdef`: `pre / 10` read as base-4 digits (1 `\global`, 2 `\long`,
+/// 3 `\outer`), most significant first; `pre % 10` must be the number of `\global`s in it. With
+/// `pre / 10 == 0` the run is `pre % 10` times `\global`.
+fn prefix_run(pre: i64) -> Option<Vec<u8>> {
+    let (mut seq, g) = (pre / 10, pre % 10);
+    if pre < 0 {
+        return None;
     }
+    if seq == 0 {
+        return if g <= 3 { Some(vec![1; g as usize]) } else { None };
+    }
+    let mut d = vec![];
+    while seq > 0 {
+        let x = (seq % 4) as u8;
+        if x == 0 {
+            return None;
+        }
+        d.push(x);
+        seq /= 4;
+    }
+    d.reverse();
+    if d.len() > 5 || d.iter().filter(|&&x| x == 1).count() as i64 != g {
+        return None;
+    }
+    Some(d)
+}
+
+fn run_code(run: &[u8]) -> i64 {
+    let mut seq = 0i64;
+    for &x in run {
+        seq = seq * 4 + x as i64;
+    }
+    seq * 10 + run.iter().filter(|&&x| x == 1).count() as i64
+}
+
+fn run_tex(run: &[u8]) -> String {
+    run.iter()
+        .map(|x| match x {
+            1 => "\\global ",
+            2 => "\\long ",
+            _ => "\\outer ",
+        })
+        .collect()
 }
 
 const PRELUDE: &str = "\\catcode`\\~=13 \\catcode`\\+=13 ";
@@ -237,7 +281,7 @@ fn render(ops: &[Op]) -> String {
                 s.push_str(&format!("{p}\\multiply {v}by 0 {p}\\advance {v}by {val}{unit}"));
             }
             Op::Assign { pre, kind, idx, val } => {
-                s.push_str(pre_tex(pre));
+                s.push_str(&pre_tex(pre));
                 s.push_str(&var_tex(kind, idx));
                 match kind {
                     1 => s.push_str(&format!("={val}pt ")),
@@ -247,7 +291,7 @@ fn render(ops: &[Op]) -> String {
                 }
             }
             Op::Define { pre, tk, tn, dk, a, b } => {
-                s.push_str(pre_tex(pre));
+                s.push_str(&run_tex(&prefix_run(pre).unwrap_or_default()));
                 let t = target_tex(tk, tn);
                 match dk {
                     0 => s.push_str(&format!("\\def {t}{{m{a}}}")),
@@ -267,7 +311,7 @@ fn render(ops: &[Op]) -> String {
                 s.push_str(&format!("\\let \\fx =\\{} {}\\fx ", FONT_NAMES[f as usize], pre_tex(pre % 10)));
             }
             Op::Font { pre, f } => {
-                s.push_str(pre_tex(pre));
+                s.push_str(&pre_tex(pre));
                 s.push_str(&format!("\\{} ", FONT_NAMES[f as usize]));
             }
             Op::ReadVar { kind, idx } => s.push_str(&format!("\\the {};", var_tex(kind, idx))),
@@ -601,7 +645,24 @@ fn tags(ops: &[Op], annots: &str, spec_words: &str, out: &mut CaseOutcome) -> bo
                             (format!("assign:{}", KIND_NAMES[kind as usize]), pre)
                         }
                     }
-                    Op::Define { dk, tk, pre, .. } => (format!("{}:{}", DEF_NAMES[dk as usize], if tk == 0 { "cs" } else { "active" }), pre),
+                    Op::Define { dk, tk, pre, .. } => {
+                        if pre / 10 != 0 {
+                            let run = prefix_run(pre).unwrap_or_default();
+                            let has_g = run.contains(&1);
+                            let has_lo = run.iter().any(|&x| x != 1);
+                            t.insert(
+                                match (has_g, has_lo) {
+                                    (false, _) => "prefix-run:\\long/\\outer only",
+                                    (true, false) => "prefix-run:\\global only",
+                                    (true, true) if run[0] == 1 => "prefix-run:\\global first, then \\long/\\outer",
+                                    (true, true) if *run.last().unwrap() == 1 => "prefix-run:\\global last, after \\long/\\outer",
+                                    (true, true) => "prefix-run:\\global between \\long/\\outer",
+                                }
+                                .into(),
+                            );
+                        }
+                        (format!("{}:{}", DEF_NAMES[dk as usize], if tk == 0 { "cs" } else { "active" }), pre % 10)
+                    }
                     Op::Font { pre, .. } => {
                         if pre >= 10 {
                             t.insert("font-selector-via-\\let-alias".into());
@@ -616,8 +677,8 @@ fn tags(ops: &[Op], annots: &str, spec_words: &str, out: &mut CaseOutcome) -> bo
                     _ => "depth2+",
                 };
                 t.insert(format!("{name}:{a}:{d}"));
-                if pre == 2 {
-                    t.insert("prefix:\\global\\global".into());
+                if pre >= 2 {
+                    t.insert("prefix:\\global repeated".into());
                 }
                 if a == "G" && pre == 0 && !matches!(op, Op::Define { dk: 1, .. }) {
                     t.insert("scope:global-by-globaldefs>0".into());
@@ -703,7 +764,7 @@ enum GT {
     Var(i64, i64),
     /// command target defined by primitive `style`: 0 `\def`, 1 `\def`/`\gdef` for global, 2 `\chardef`,
     /// 3 `\countdef` (registers 1/2), 4 `\let`=char, 5 `\mathchardef`, 6 `\toksdef`, 7 `\let`=font selector,
-    /// 8 `\let` = `\ta`/`\tb`… (other targets)
+    /// 8 `\let` = `\ta`/`\tb`… (other targets), 9 `\long[\global]\def`, 10 `\outer[\global]\long\def`
     Cmd(i64, i64, i64),
     Font,
 }
@@ -732,7 +793,11 @@ fn gt_assign(t: GT, j: i64, global: bool) -> Op {
             5 => Op::Define { pre, tk, tn, dk: 3, a: 300 + j, b: 0 },
             6 => Op::Define { pre, tk, tn, dk: 5, a: 1 + j, b: 0 },
             7 => Op::Define { pre, tk, tn, dk: 8, a: 1 + j, b: 0 },
-            _ => Op::Define { pre, tk, tn, dk: 9, a: 0, b: 4 + j },
+            8 => Op::Define { pre, tk, tn, dk: 9, a: 0, b: 4 + j },
+            // `\long\def` / `\long\global\def`
+            9 => Op::Define { pre: run_code(if global { &[2, 1] } else { &[2] }), tk, tn, dk: 0, a: 1 + j, b: 0 },
+            // `\outer\long\def` / `\outer\global\long\def`
+            _ => Op::Define { pre: run_code(if global { &[3, 1, 2] } else { &[3, 2] }), tk, tn, dk: 0, a: 1 + j, b: 0 },
         },
     }
 }
@@ -772,6 +837,7 @@ fn exhaustive_pairs() -> Vec<(&'static str, GT, GT, bool)> {
         ("mathcode,endlinechar", GT::Var(5, 33), GT::Var(6, 1), false),
         ("cs-mathchardef,active-toksdef", GT::Cmd(0, 2, 5), GT::Cmd(1, 0, 6), true),
         ("cs-let-font,year", GT::Cmd(0, 3, 7), GT::Var(6, 2), false),
+        ("cs-long-def,active-outer-long-def", GT::Cmd(0, 0, 9), GT::Cmd(1, 0, 10), false),
     ]
 }
 
@@ -833,7 +899,7 @@ fn random_program(r: &mut Rng) -> Vec<Op> {
     let pick_pre = |r: &mut Rng| -> i64 {
         if r.below(10) < global_bias {
             if r.chance(1, 12) {
-                2
+                r.range(2, 3)
             } else {
                 1
             }
@@ -922,7 +988,17 @@ fn random_program(r: &mut Rng) -> Vec<Op> {
                     }
                 }
             };
-            let op = Op::Define { pre: pick_pre(r), tk, tn, dk, a, b };
+            let mut pre = pick_pre(r);
+            if (dk == 0 || dk == 1) && r.chance(1, 2) {
+                // any run of `\global` `\long` `\outer`, the `\global`s anywhere in it
+                let mut run: Vec<u8> = (0..r.range(if pre == 0 { 1 } else { 0 }, 3)).map(|_| if r.chance(1, 2) { 2 } else { 3 }).collect();
+                for _ in 0..pre.min(2) {
+                    let at = r.below(run.len() as u64 + 1) as usize;
+                    run.insert(at, 1);
+                }
+                pre = run_code(&run);
+            }
+            let op = Op::Define { pre, tk, tn, dk, a, b };
             ops.push(op);
             last = Some(op);
             if r.chance(1, 2) {
@@ -978,7 +1054,7 @@ impl Property for C01 {
          4 (quick; 3 for the last 7 pairs) / 5 (thorough; 4 for the last 7 pairs) over 2 targets x 2 values x {local, global} + `{` + `}` \
          with both targets read after every op, for 13 pairs of target kinds; and every sequence up to length 5 (quick) / 6 (thorough; 7 for \
          \\count) over 1 target x 2 values x {local, global} + `{` + `}` for 6 target kinds; a `}` with no group open only as the last op), random programs (8..60 ops + reads, depth <= 8, a pool of 2-6 hot targets, \
-         40-60% of assignments \\global, \\globaldefs assigned in a quarter of them). Non-trivial: an assignment inside a group is \
+         20-60% of assignments \\global (1-3 times), half of the \\def/\\gdef with a random run of \\global \\long \\outer in any order, \\globaldefs assigned in a quarter of them). Non-trivial: an assignment inside a group is \
          followed by a read."
             .into()
     }
@@ -1016,7 +1092,7 @@ impl Property for C01 {
             kinds.push(GT::Var(k, i));
         }
         for tk in 0..2 {
-            for style in 0..9 {
+            for style in 0..11 {
                 kinds.push(GT::Cmd(tk, 0, style));
             }
         }
@@ -1071,7 +1147,7 @@ impl Property for C01 {
             push_all(&alpha, &[gt_read(t1), gt_read(t2)], setup, maxlen, &mut cases, &mut self.exhaustive);
         }
         // one target, deeper
-        for (ti, t) in [GT::Var(0, 1), GT::Cmd(0, 0, 0), GT::Cmd(1, 0, 0), GT::Font, GT::Var(3, 1), GT::Cmd(1, 1, 2)].into_iter().enumerate() {
+        for (ti, t) in [GT::Var(0, 1), GT::Cmd(0, 0, 0), GT::Cmd(1, 0, 0), GT::Font, GT::Var(3, 1), GT::Cmd(1, 1, 2), GT::Cmd(0, 1, 9), GT::Cmd(1, 1, 10)].into_iter().enumerate() {
             let alpha: Vec<Op> = alphabet(t, t).into_iter().take(6).collect();
             let maxlen = match (ctx.thorough, ti < 1) {
                 (true, true) => 7,
@@ -1187,9 +1263,26 @@ impl Property for C01 {
         for i in 0..n {
             let mut o = ops.clone();
             match &mut o[i] {
-                Op::Assign { pre, .. } | Op::Define { pre, .. } | Op::Font { pre, .. } if *pre == 2 => {
+                Op::Assign { pre, .. } | Op::Define { pre, .. } | Op::Font { pre, .. } if *pre == 2 || *pre == 3 => {
                     *pre = 1;
                     c.push(enc(&o));
+                }
+                Op::Define { pre, .. } if *pre >= 10 => {
+                    // drop one prefix of the run; then the run altogether
+                    let run = prefix_run(*pre).unwrap_or_default();
+                    let keep = *pre;
+                    for k in 0..run.len() {
+                        let mut r2 = run.clone();
+                        r2.remove(k);
+                        let code = if r2.iter().all(|&x| x == 1) { r2.len() as i64 } else { run_code(&r2) };
+                        if let Op::Define { pre, .. } = &mut o[i] {
+                            *pre = code;
+                        }
+                        c.push(enc(&o));
+                    }
+                    if let Op::Define { pre, .. } = &mut o[i] {
+                        *pre = keep;
+                    }
                 }
                 Op::Assign { pre, .. } | Op::Font { pre, .. } if *pre >= 10 => {
                     *pre %= 10;
